@@ -98,4 +98,22 @@ M = [
  ("m79-unquote-twice", "C15", "ural/infer_redirection.py", "            potential_target = unquote(obvious_redirect_match.group(2))", "            potential_target = unquote(unquote(obvious_redirect_match.group(2)))"),
  ("m80-urljoin-swapped", "C15", "ural/infer_redirection.py", "                target = urljoin(url, potential_target)", "                target = urljoin(potential_target, url)"),
  ("m81-regex-no-anchor", "C15", "ural/patterns.py", 'QUERY_VALUE_IN_URL_TEMPLATE = r"(?:^|[?&])(%s)=([^&]+)"', 'QUERY_VALUE_IN_URL_TEMPLATE = r"(%s)=([^&]+)"'),
+
+ # C16
+ ("m82-is_url-no-strip", "C16", "ural/is_url.py", "    string = string.strip()\n", "    pass\n"),
+ ("m83-is_url-http-check-misplaced", "C16", "ural/is_url.py", "    if require_protocol:\n\n        if only_http_https and not HTTP_PROTOCOL_RE.match(string):\n            return False\n", "    if only_http_https and not HTTP_PROTOCOL_RE.match(string):\n        return False\n\n    if require_protocol:\n"),
+ ("m84-text-validate-without-protocol", "C16", "ural/urls_from_text.py", "            if not URL_WITH_PROTOCOL_RE.match(candidate):\n                continue\n", "            if not candidate:\n                continue\n"),
+ # C17
+ ("m85-html-unescape-before-strip", "C17", "ural/urls_from_html.py", "        url = url.strip()\n        url = unescape(url)", "        url = unescape(url)\n        url = url.strip()"),
+ ("m86-links-self-link-kept", "C17", "ural/links_from_html.py", "        if url == base_url:\n            continue\n", ""),
+ ("m87-links-unique-never-recorded", "C17", "ural/links_from_html.py", "            already_seen.add(url)", "            pass"),
+ # C18
+ ("m88-should-resolve-keeps-homepages", "C18", "ural/should_resolve.py", "    if is_homepage(parsed):\n        return False\n", ""),
+ ("m89-hostname-template-unanchored", "C18", "ural/patterns.py", 'HOSTNAME_TEMPLATE = r"(?:^|\\.)%s$"', 'HOSTNAME_TEMPLATE = r"%s$"'),
+ # C19
+ ("m90-telegram-length-check-dropped", "C19", "ural/telegram.py", "            if len(path) < 2:\n                return None\n\n            if path[1] == \"joinchat\":", "            if path[1] == \"joinchat\":"),
+ # C20
+ ("m91-ensure-protocol-no-rstrip", "C20", "ural/ensure_protocol.py", '    protocol = protocol.rstrip(":/")\n', "    pass\n"),
+ ("m92-format-url-unsorted", "C20", "ural/format_url.py", "iterator = sorted(args.items()) if isinstance(args, dict) else iter(args)", "iterator = iter(args.items()) if isinstance(args, dict) else iter(args)"),
+ ("m93-format-url-double-slash", "C20", "ural/format_url.py", '        url = base_url.rstrip("/") + "/" + path.lstrip("/")', '        url = base_url.rstrip("/") + "/" + path'),
 ]
